@@ -169,14 +169,23 @@ def m5_reference_dimensions(ck, F):
         t = g.blocks[bb]['term']
         if t['t'] != 'switch' or t['on']['o'] == 'const': continue
         e = expr_of(F, b, t['on'])
-        if mentions(e, 'ref') and mentions(e, 'new') and dim_expr(e):
-            guards.append(bb)
+        # exactly: the (width, height) pairs of the two pictures are compared (plane lengths or one stride alone do not determine the chroma geometry)
+        if e[0] == 'call' and (e[1].endswith('PartialEq::ne') or e[1].endswith('PartialEq::eq')) and len(e) == 4:
+            sides = []
+            for x in e[2:4]:
+                if x[0] == 'call' and x[1].endswith('SourceFormat::into_width_and_height') and x[2][0] == 'call' and x[2][1].endswith('DecodedPicture::format'):
+                    sides.append('ref' if mentions(x[2][2], 'ref') else ('new' if mentions(x[2][2], 'new') else '?'))
+            if sorted(sides) == ['new', 'ref']:
+                arms = {int(v): to for v, to in t['arms']}
+                # the gather_block calls must lie on the "equal" side
+                same = arms.get(0) if e[1].endswith('::ne') else t['otherwise']
+                guards.append((bb, same))
     ok = True
     for cbb, ct in calls:
-        if not any(g.dominates(gb, cbb) for gb in guards):
+        if not any(same is not None and g.dominates(same, cbb) for gb, same in guards):
             ok = False
     if ok:
-        ck.ok('M5', 'all %d gather_block calls dominated by a reference/target dimension test (bb%s)' % (len(calls), guards), where_of(b, guards[0]))
+        ck.ok('M5', 'all %d gather_block calls lie on the "same (width, height)" side of a comparison of the two pictures\' dimensions (bb%s)' % (len(calls), [gb for gb, _ in guards]), where_of(b, guards[0][0]))
         return True
     ck.violation('M5', 'M5 : gather : reference of another size', where_of(b, calls[0][0]),
                  'gather_block is called with the stride and height of the reference planes but writes the new picture\'s planes, and nothing tests that the '
